@@ -40,56 +40,53 @@ Theorem c11_expired_collected : forall c ops, 0 <= c_ttl c ->
 Proof. exact expired_collected_l. Qed.
 Print Assumptions c11_expired_collected.
 
-(* 4. a peer without connection holds no reservation — for every history in which no
-   RESERVE races with the peer's own disconnect (hypothesis forced by the proof) *)
-Theorem c11_gone_on_disconnect_partial : forall c ops, 0 <= c_ttl c -> race_free ops ->
+(* 4. a peer without connection holds no reservation — every history, including a
+   RESERVE that races with the peer's own disconnect (fix 6afff63; before it this was
+   refuted by the history below, which is now a corpus case that must pass) *)
+Theorem c11_gone_on_disconnect : forall c ops, 0 <= c_ttl c ->
   let s := run c init_st ops in forall p, connected s p = false -> s_rsvp s p = None.
-Proof. exact gone_on_disconnect_partial_l. Qed.
-Print Assumptions c11_gone_on_disconnect_partial.
+Proof. exact gone_on_disconnect_l. Qed.
+Print Assumptions c11_gone_on_disconnect.
 
-(* ... and without that hypothesis it is false: open p; RESERVE p while p's last
-   connection closes before handleReserve takes the lock *)
 Definition a4 (ip : Z) : addr := mkAddr ip 0 false false.
 Definition wit_cfg : cfg :=
   mkCfg 600000 4 2 1 2 1024 true 100 30000 1073741824 100 3
         [(a4 1, a4 2); (a4 1, a4 3); (a4 2, a4 4)].
 
-Theorem c11_gone_on_disconnect_refuted : exists c ops p, 0 <= c_ttl c /\
-  let s := run c init_st ops in connected s p = false /\ s_rsvp s p <> None.
-Proof.
-  exists wit_cfg, [(0, OOpen 2 0, 3); (3, OReserve 2 0 true 2, 9)], 2.
-  split; [vm_compute; discriminate|]. vm_compute. split; [reflexivity | discriminate].
-Qed.
-Print Assumptions c11_gone_on_disconnect_refuted.
+Definition race_history : list (Z * op * Z) :=
+  [(0, OOpen 2 0, 3); (3, OReserve 2 0 true 2, 9)].
+
+Example corpus_race_fixed :
+  s_rsvp (run wit_cfg init_st race_history) 2 = None /\ monitor wit_cfg (model_trace wit_cfg init_st race_history) = [].
+Proof. vm_compute. split; reflexivity. Qed.
 
 (* 5. caps: among the peers 1..n, the holders of a live reservation number at most
-   MaxReservations, at most MaxReservationsPerIP per IP and MaxReservationsPerASN per
-   ASN — for every history in which a peer's RESERVEs always come from the same
-   address (hypothesis forced by the proof) *)
-Theorem c11_caps_respected_partial : forall c ops,
-  0 <= c_maxrsvp c -> 0 <= c_maxip c -> 0 <= c_maxasn c -> 0 <= c_ttl c -> stable_addrs c ops ->
-  let s := run c init_st ops in
+   MaxReservations, at most MaxReservationsPerIP per IP and MaxReservationsPerASN per ASN,
+   where a reservation counts under the address it was granted from (the ghost map g
+   of grun: updated at every granted RESERVE) — every history, no hypothesis on addresses
+   (fix 648cd92; before it refuted by refresh_history below, now a corpus case) *)
+Theorem c11_caps_respected : forall c ops,
+  0 <= c_maxrsvp c -> 0 <= c_maxip c -> 0 <= c_maxasn c ->
+  let s := fst (grun c init_st (fun _ => addr0) ops) in
+  let g := snd (grun c init_st (fun _ => addr0) ops) in
+  s = run c init_st ops /\
   zlength (holders c s (fun _ => true)) <= c_maxrsvp c /\
-  (forall i, zlength (holders c s (fun p => a_ip (A c p) =? i)) <= c_maxip c) /\
-  (forall a, a <> 0 -> zlength (holders c s (fun p => a_asn (A c p) =? a)) <= c_maxasn c).
-Proof. exact caps_partial_l. Qed.
-Print Assumptions c11_caps_respected_partial.
+  (forall i, zlength (holders c s (fun p => a_ip (g p) =? i)) <= c_maxip c) /\
+  (forall a, a <> 0 -> zlength (holders c s (fun p => a_asn (g p) =? a)) <= c_maxasn c).
+Proof. exact caps_l. Qed.
+Print Assumptions c11_caps_respected.
 
-(* ... and false without it: p holds a reservation from IP 1; its refresh from a second
-   address on the full IP 2 is refused and drops p's constraint entry; q is then admitted
-   on IP 1: two live reservations that were granted from IP 1, cap 1 *)
-Theorem c11_caps_respected_refuted : exists c ops,
-  0 <= c_maxrsvp c /\ 0 <= c_maxip c /\ 0 <= c_maxasn c /\ 0 <= c_ttl c /\
-  let s := run c init_st ops in
-  c_maxip c < zlength (holders c s (fun p => a_ip (A c p) =? 1)).
-Proof.
-  exists wit_cfg,
-    [(0, OOpen 1 0, 3); (3, OOpen 1 1, 6); (6, OOpen 2 0, 9); (9, OOpen 3 0, 12);
-     (12, OReserve 3 0 true 0, 18); (18, OReserve 1 0 true 0, 24);
-     (24, OReserve 1 1 true 0, 30); (30, OReserve 2 0 true 0, 36)].
-  vm_compute. repeat split; discriminate.
-Qed.
-Print Assumptions c11_caps_respected_refuted.
+Definition refresh_history : list (Z * op * Z) :=
+  [(0, OOpen 1 0, 3); (3, OOpen 1 1, 6); (6, OOpen 2 0, 9); (9, OOpen 3 0, 12);
+   (12, OReserve 3 0 true 0, 18); (18, OReserve 1 0 true 0, 24);
+   (24, OReserve 1 1 true 0, 30); (30, OReserve 2 0 true 0, 36)].
+
+(* the refused refresh keeps peer 1's slot on IP 1, so peer 2 is refused there *)
+Example corpus_refresh_fixed :
+  s_rsvp (run wit_cfg init_st refresh_history) 2 = None /\
+  s_rsvp (run wit_cfg init_st refresh_history) 1 <> None /\
+  monitor wit_cfg (model_trace wit_cfg init_st refresh_history) = [].
+Proof. vm_compute. repeat split; try reflexivity. discriminate. Qed.
 
 (* 6. a relayed connection never obtains a reservation *)
 Theorem c11_no_reservation_over_relay : forall c s p k acl inj,
@@ -129,8 +126,11 @@ Proof.
   destruct (a_relayed (addr_of c p k)); [inversion H; subst; discriminate Hok|].
   cbv zeta in H. destruct (inj =? 2).
   - destruct (negb acl); [inversion H; subst; discriminate Hok|].
-    destruct (c_reserve c _ p _ _ _) as [s2 ok]. destruct (negb ok); inversion H; subst; discriminate Hok.
+    destruct (negb (connected _ p)); [inversion H; subst; discriminate Hok|].
+    destruct (c_reserve c _ p _ _ _) as [s2 ok]. destruct (negb ok); inversion H; subst; [discriminate Hok|].
+    cbn. repeat split; reflexivity.
   - destruct (negb acl); [inversion H; subst; discriminate Hok|].
+    destruct (negb (connected s p)); [inversion H; subst; discriminate Hok|].
     destruct (c_reserve c s p _ _ _) as [s2 ok]. destruct (negb ok); inversion H; subst; [discriminate Hok|].
     cbn. repeat split; reflexivity.
 Qed.
@@ -146,11 +146,16 @@ Example monitor_accepts_happy :
      (30, OSend 1 1 100, 36); (36, OAdvance 40000, 40042)]) = [].
 Proof. vm_compute. reflexivity. Qed.
 
+(* a trace in which a second reservation is granted on a full IP is rejected *)
 Example monitor_rejects_cap_overflow :
-  monitor wit_cfg (model_trace wit_cfg init_st
-    [(0, OOpen 1 0, 3); (3, OOpen 1 1, 6); (6, OOpen 2 0, 9); (9, OOpen 3 0, 12);
-     (12, OReserve 3 0 true 0, 18); (18, OReserve 1 0 true 0, 24);
-     (24, OReserve 1 1 true 0, 30); (30, OReserve 2 0 true 0, 36)]) = [ERR_PROPERTY; 7; CL_CAPS; 2].
+  monitor_case [1; 600000; 4; 2; 1; 2; 1024; 1; 100; 30000; 1073741824; 100; 2;  1; 0; 0; 2; 0; 0;  1; 0; 0; 3; 0; 0;
+                10; 0; 1; 0;   3; 0; 0; 0;  -1; 0; 0; -1; 0; 0; 0; 0; 0; 0; 1; 0;  -1; 0; 0; -1; 0; 0; 0; 0; 0; 0; 0; 0;  0;
+                10; 3; 2; 0;   6; 0; 0; 0;  -1; 0; 0; -1; 0; 0; 0; 0; 0; 0; 1; 0;  -1; 0; 0; -1; 0; 0; 0; 0; 0; 0; 1; 0;  0;
+                12; 6; 1; 0; 1; 0;  100; 1; 100; 1; 1; 1; 600000; 600000;
+                12; 0; 0; 0;  600006; 0; 1; 600006; 1; 1; 0; 0; 1; 0; 1; 0;  -1; 0; 0; -1; 0; 0; 0; 0; 0; 0; 1; 0;  0;
+                12; 12; 2; 0; 1; 0;  100; 1; 100; 1; 1; 2; 600000; 600000;
+                18; 0; 0; 0;  600006; 0; 1; 600006; 1; 1; 0; 0; 1; 0; 1; 0;  600012; 0; 1; 600012; 1; 1; 0; 0; 1; 0; 1; 0;  0]
+  = [ERR_PROPERTY; 3; CL_CAPS; 2].
 Proof. vm_compute. reflexivity. Qed.
 
 (* a circuit reported OK towards a destination without reservation is rejected *)
